@@ -3,7 +3,7 @@
 From Coq Require Import ZArith List Bool NArith Lia.
 From Coq.Strings Require Import Byte String.
 From EsVerif.Common Require Import Base Bytes.
-From EsVerif.C01 Require Import Framing FramingProofs Model Spec Layout LayoutProofs Proofs.
+From EsVerif.C01 Require Import Framing FramingProofs Model Spec Layout LayoutProofs Proofs Pyval PyvalProofs Uncond Frame FrameProofs.
 Import ListNotations.
 Open Scope Z_scope.
 Open Scope list_scope.
@@ -120,4 +120,63 @@ Proof.
   - reflexivity.
   - reflexivity.
   - vm_compute. reflexivity.
+Qed.
+
+(* ---- a closed instance of the unconditional round trip (Uncond.v): header values of every kind *)
+Definition u_hdr : hdict pv :=
+  [(B "k", PStr (B "THE END")); (B "_size", PInt 7);
+   (B "n", PList [PInt (-3); PFloat (B "1e+300"); PNone; PBool true; PBytes [x00; xff; x45; x4e; x44];
+                  PTuple [PStr [x61; x27; x0a; x5c; xc3; xa9]]; PDict [(B "END", PTuple [])]])].
+Definition u_dt : dtype :=
+  [{| f_name := B "TREND"; f_order := "<"%byte; f_kind := "i"%byte; f_size := 2; f_shape := [] |};
+   {| f_name := B "y"; f_order := ">"%byte; f_kind := "f"%byte; f_size := 4; f_shape := [2; 1] |}].
+Definition u_rows : list (list byte) := [[x01; x00; x7f; xc0; x00; x01; x00; x00; x00; x80];
+                                         [xff; x7f; x0a; x45; x4e; x44; x0a; x0a; xff; x00]].
+
+Lemma unconditional_nonvacuous :
+  wf_items u_hdr = true /\ wf_dtype u_dt = true /\ user_hdr_ok pv u_hdr
+  /\ u_rows <> [] /\ rows_fit u_dt u_rows /\ 0 < rowsize u_dt
+  /\ (exists h, sfile_read pv py_vstr py_vint py_np_dtype py_eval
+                  (sfile_write pv py_vstr py_vdescr py_pformat u_hdr u_dt u_rows) = Ok (u_dt, u_rows, h)
+                /\ dget pv (B "n") h = dget pv (B "n") u_hdr /\ dget pv (B "_SIZE") h = Some (PInt 2))
+  /\ pv_parse (B "{'a': ('x' 'y'), 'b': (1), 'c': (1,), 'e': -0.0, 'f': [1, 2]}")
+     = Some (PDict [(B "a", PStr (B "xy")); (B "b", PInt 1); (B "c", PTuple [PInt 1]); (B "e", PFloat (B "-0.0"));
+                    (B "f", PList [PInt 1; PInt 2])]).
+Proof.
+  split; [reflexivity|]. split; [reflexivity|]. split.
+  { intros k I. cbn in I. destruct I as [<-|[<-|[<-|[]]]]; reflexivity. }
+  split; [discriminate|]. split; [repeat constructor|]. split; [reflexivity|]. split.
+  - eexists. split; [vm_compute; reflexivity|]. split; reflexivity.
+  - vm_compute. reflexivity.
+Qed.
+
+(* the file system steps: a write of path 1, unrelated traffic on path 2, a read of path 1 *)
+Lemma frame_nonvacuous :
+  forallb (fun o => negb (touches 1%nat o)) [WriteRec 2%nat u_rows; ReadSelf 1%nat; ReadRec 2%nat u_dt None] = true
+  /\ snd (step (run (fst (step fs_empty (WriteSelf 1%nat u_hdr u_dt u_rows)))
+                     [WriteRec 2%nat u_rows; ReadSelf 1%nat; ReadRec 2%nat u_dt None]) (ReadRec 2%nat u_dt None))
+     = ARec (Ok u_rows)
+  /\ 0 <= 2 < 10 ^ 20
+  /\ parse_size (firstn 27 (size_update (mk_header 2 (B "{}") ++ concat u_rows) 12345)) = Ok 12345.
+Proof. split; [reflexivity|]. split; [vm_compute; reflexivity|]. split; [lia|]. vm_compute. reflexivity. Qed.
+
+(* ---- the H_pf checker on a real pformat text (three lines, as pprint wraps it) *)
+Definition r_text : list byte :=
+  B "{'_DTYPE': [('x', '<i2')]," ++ nl :: B " '_VERSION': '1.0'," ++ nl :: B " 'k': 'THE END'}".
+Definition r_uhdr : hdict pv := [(B "k", PStr (B "THE END"))].
+Definition r_head : hdict pv :=
+  [(B "k", PStr (B "THE END")); (B "_DTYPE", PList [PTuple [PStr (B "x"); PStr (B "<i2")]]); (B "_VERSION", PStr (B "1.0"))].
+Lemma hpf_check_nonvacuous : hpf_check r_text r_uhdr r_head ex_dt = true /\ user_hdr_ok pv r_uhdr.
+Proof. split; [vm_compute; reflexivity|]. intros k I. cbn in I. destruct I as [<-|[]]. reflexivity. Qed.
+
+(* ---- instances of the rejection theorems *)
+Lemma reject_nonvacuous :
+  hdr_text_ok w_text_value = true /\ ex_rows <> [] /\ rows_fit ex_dt ex_rows /\ 0 < rowsize ex_dt
+  /\ (1 <= 3 <= length (bin_write ex_rows))%nat
+  /\ sfile_read_c (firstn (length (sfile_file w_text_value ex_rows) - 3) (sfile_file w_text_value ex_rows)) ex_dt = Err ERuntime
+  /\ sfile_read_c (sfile_file w_text_value ex_rows) ex_dt = Ok (2, ex_rows)
+  /\ take_rows 2 2 [x01; x02; x03] = Err ERuntime.
+Proof.
+  split; [reflexivity|]. split; [discriminate|]. split; [repeat constructor|]. split; [reflexivity|].
+  split; [cbn; lia|]. split; [vm_compute; reflexivity|]. split; [vm_compute; reflexivity | reflexivity].
 Qed.
